@@ -64,6 +64,23 @@ def saveReach (d : Nat) : Val → Nat
     | some _ => max (saveReach d h) (saveReach d t)
   | .box items => if d + 1 > maxSaveDepth then d else saveReach (d + 1) items
 
+/-- restore_size / restore_internal_size (lib/lpc/object.c, the size pre-pass of restore_variable / restore_object; fix c9a3442
+    of C16): `nesting` is the level of the container whose elements are being counted (the outermost one is level 1);
+    meeting a container inside it calls restore_internal_size (..., nesting + 1), which begins with
+    `if (nesting > MAX_SAVE_SVALUE_DEPTH) return 0;` - the text is refused as an illegal format.  `false` = refused. -/
+def restoreWalk (nesting : Nat) : Val → Bool
+  | .leaf _ => true
+  | .nil => true
+  | .cons h t => restoreWalk nesting h && restoreWalk nesting t
+  | .box items => if nesting + 1 > maxSaveDepth then false else restoreWalk (nesting + 1) items
+
+/-- ghost: the deepest level the pre-pass recurses to (one C frame of restore_internal_size per level), refusal included -/
+def restoreReach (nesting : Nat) : Val → Nat
+  | .leaf _ => nesting
+  | .nil => nesting
+  | .cons h t => if restoreWalk nesting h then max (restoreReach nesting h) (restoreReach nesting t) else restoreReach nesting h
+  | .box items => if nesting + 1 > maxSaveDepth then nesting + 1 else restoreReach (nesting + 1) items
+
 /-- deep_copy_svalue (copy ()): the same counter, the same test, the same constant -/
 def deepCopyOk (d : Nat) (v : Val) : Bool := (saveSize d v).isSome
 
